@@ -30,7 +30,7 @@ type C16Case struct {
 var c16Ops = []string{"get", "get", "insert", "insert", "inserthigh", "insertlow", "insertlow", "update", "delete", "delete", "deletetop", "deletetop", "delabsent", "clone", "mutclone", "mutpersist", "getwrongtype", "getseq", "getseq", "openlegacy", "openbad", "cursor", "min", "max", "ceil", "forward", "backward", "seekfirst"}
 
 func genC16(t *rapid.T, tier string) C16Case {
-	c := C16Case{Cfg: core.GenConfig(t, tier, core.GenOpts{Caches: []string{"none"}, Vals: []string{core.VInt, core.VString, core.VBytes, core.VPtr, core.VStruct}, BigOneIn: 8})}
+	c := C16Case{Cfg: core.GenConfig(t, tier, core.GenOpts{Caches: []string{"none"}, Vals: []string{core.VInt, core.VString, core.VBytes, core.VPtr, core.VStruct, core.VNil, core.VTags}, BigOneIn: 8})}
 	pool := len(c.Cfg.Pool())
 	c.Fill = core.GenFillCfg(t, c.Cfg, pool)
 	c.Prog = core.GenProgram(t, core.WithBulk(pairBaseWeights, c.Cfg), 20, 1)
